@@ -40,7 +40,7 @@ m = {
                  'kind_free_text': 'Kani 0.68 harnesses (/verif/harness) over the real fn_graph code with modelled daggy/tokio/smallvec; driver parses per-assertion verdicts, replays counterexamples against the real crates (/verif/harness-real), caches verdicts by content hash of /repo + models + harnesses'}],
     'checks': checks,
     'not_applicable': na,
-    'notes': 'Exit codes of bin/check: 0 held, 1 VIOLATION (replayed natively), 2 inconclusive / machinery problem. Genuine defects found so far are listed in known_findings.json (F1: stream() stall, fixed by /repo commit ebd41f3).',
+    'notes': 'Exit codes of bin/check: 0 held, 1 VIOLATION (replayed natively), 2 inconclusive / machinery problem. Genuine defects found are listed in known_findings.json (F1: stream() stall, fixed by /repo ebd41f3; F2: exponential rank calculation, fixed by /repo 85995a5).',
 }
 json.dump(m, open(os.path.join(V, 'MANIFEST.json'), 'w'), indent=1)
 print(len(checks), 'checks,', len(na), 'not applicable')
